@@ -75,6 +75,13 @@ func genDate(c *Ctx) {
 	for _, e := range [][4]int{{28, 2, 1900, 3}, {28, 2, 2000, 3}, {31, 12, 1999, 2}, {29, 2, 2004, 2}, {1, 1, 1, 400}, {28, 2, 2100, 2}, {30, 4, 2023, 2}, {31, 12, 2400, 367}} {
 		emit(e[0], e[1], e[2], e[3])
 	}
+	// "for any number of steps": two VERY long runs (more than a full 400-year cycle; more than 2^63 ns / 86400e9 ns = 106 751 days, the
+	// point at which a day count turned into a time.Duration wraps) — a counter, accumulator or unit conversion that is only wrong
+	// after many steps shows nowhere else
+	emit(1, 1, 1800, 110000)
+	emit(17, 8, 1, 150000)
+	c.Stats.Count("very_long_runs")
+	c.Stats.Count("very_long_runs")
 	// malformed stream: the code panics (month index) or free-runs; model must agree
 	for _, e := range [][4]int{{1, 13, 2000, 2}, {1, 0, 2000, 2}, {0, 1, 2000, 3}, {32, 1, 2001, 3}, {31, 12, 2000, 0}, {5, 14, 1999, 1}, {40, 12, 1999, 2}} {
 		emit(e[0], e[1], e[2], e[3])
